@@ -15,7 +15,7 @@ TARGET = dict(
     execs=[dict(name="merge", harness="harness/C16_psi_merge.c", repo=LIBUPIPE + lib("upipe-ts", only=_TS), engine=MEMFIX, share=1.0),
            dict(name="split", harness="harness/C16_psi_split.c", repo=LIBUPIPE + lib("upipe-ts", only=_TS), engine=MEMFIX, share=1.0, case_scale=1.0),
            dict(name="join", harness="harness/C16_psi_join.c", repo=LIBUPIPE + lib("upipe-ts", only=_TS), engine=MEMFIX, share=1.0, case_scale=0.7)],
-    quick=dict(cases=9000, budget=20), thorough=dict(cases=400000, budget=150),
+    quick=dict(cases=9000, budget=20), thorough=dict(cases=150000, budget=150),
 )
 META = dict(
     technique="property-based testing (rapidcheck tapes -> C executors) of the three PSI pipes compiled from the repository against an independent section packer / parser / filter matcher, with a recording sink and probe, under ASan",
